@@ -191,19 +191,23 @@ def others(run):
   # pooling: without quantizer the stock layer; with quantizer pool-average of (x*area) times the quantized reciprocal
   for cls, stock, kw, sample in (("QAveragePooling2D", "AveragePooling2D", dict(pool_size=2), (4, 4, 1)),
                                  ("QAveragePooling2D", "AveragePooling2D", dict(pool_size=2, strides=1, padding="same"), (3, 3, 1)),
-                                 ("QGlobalAveragePooling2D", "GlobalAveragePooling2D", dict(), (2, 2, 2))):
+                                 ("QGlobalAveragePooling2D", "GlobalAveragePooling2D", dict(), (2, 2, 2)),
+                                 ("QGlobalAveragePooling2D", "GlobalAveragePooling2D", dict(), (2, 3, 2)),
+                                 ("QGlobalAveragePooling2D", "GlobalAveragePooling2D", dict(data_format="channels_first"), (2, 2, 3)),
+                                 ("QAveragePooling2D", "AveragePooling2D", dict(pool_size=(1, 2)), (2, 4, 1))):
     for aq, act in ((None, None), ("quantized_bits(8,0,1,alpha=1)", None), ("quantized_bits(6,0,1,alpha=1)", "quantized_bits(8,3,1,alpha=1)")):
       idx += 1
       L = getattr(Q, cls)(average_quantizer=aq, activation=act, **kw)
       S = getattr(layers.K3().layers, stock)(**kw)
-      area = float(np.prod(sample[:2])) if cls.startswith("QGlobal") else float(np.prod(L.pool_size))
+      spatial = sample[1:] if kw.get("data_format") == "channels_first" else sample[:2]
+      area = float(np.prod(spatial)) if cls.startswith("QGlobal") else float(np.prod(L.pool_size))
       rep = list(L.get_quantizers())
 
       def fref(x, S=S, rep=rep, aq=aq, act=act, L=L, area=area, cls=cls):
         if aq is None:
           y = S.call(x)
         elif cls.startswith("QGlobal"):
-          y = tf.reduce_sum(x, axis=[1, 2]) * rep[0](1.0 / area)
+          y = tf.reduce_sum(x, axis=[2, 3] if kw.get("data_format") == "channels_first" else [1, 2]) * rep[0](1.0 / area)
         else:
           y = S.call(x * area) * tf.cast(rep[0](1.0 / area), tf.float32)
         return L.activation(y) if act is not None else y
